@@ -1,22 +1,24 @@
 (** C16 — genetic maps: constructor settings, default-argument round trip, egmap files (Model/C16_Maps.v).
-    Three clauses of the round trip are false of the code as it stands (witnesses by computation, reproduced on the
-    implementation by the harness); each is proved under the guard that excludes the failing inputs. *)
+    One clause of the round trip is false of the code as it stands (default arguments on the two sides: witness by computation,
+    reproduced on the implementation by the harness).  Two others were false of the former code and are repaired in the library
+    (the ExtendedGeneticMap constructor dropped spline_kind / spline_fill_value; to_egmap / from_egmap lost marker names and
+    function codes): they are proved at full strength about the current code, and the refutations are kept about the former
+    definitions [old_egmap_ctor_kind], [old_egmap_to] / [old_egmap_from] as regression witnesses. *)
 From Coq Require Import String PrimFloat Lia.
 From PV Require Import Lib.Common Lib.FloatK Lib.C16_Spec Model.C16_Store Model.C16_Codec Gen.C16_Kernel Model.C16_Kernel Model.C16_Maps
                        Proofs.C16_Codec.
 Local Open Scope Z_scope.
 
 (** ** constructor settings *)
-(** StandardGeneticMap keeps the interpolation kind / fill value it is given, whatever they are ... *)
+(** both map classes keep the interpolation kind / fill value they are given, whatever they are, whether or not a spline is built *)
 Lemma sgm_ctor_keeps k a : ctor_kind false k a = k /\ ctor_fill false k a = k.
 Proof. unfold ctor_kind, ctor_fill, ctor_setting. destruct a; split; reflexivity. Qed.
-(** ... ExtendedGeneticMap replaces them by the defaults of build_spline whenever it builds its spline: a map constructed
-    (hence read by from_pandas / from_csv / from_egmap) with the source's spline_kind = "nearest" comes out "linear" *)
-Lemma egm_ctor_drops_kind : exists k, ctor_kind true k true <> k /\ ctor_kind true k true = zs "linear".
+Lemma egm_ctor_keeps k a : ctor_kind true k a = k /\ ctor_fill true k a = k.
+Proof. unfold ctor_kind, ctor_fill, ctor_setting. destruct a; split; reflexivity. Qed.
+(** the former ExtendedGeneticMap constructor replaced them by the defaults of build_spline whenever it built its spline: a map
+    constructed (hence read by from_pandas / from_csv / from_egmap) with the source's spline_kind = "nearest" came out "linear" *)
+Lemma old_egm_ctor_drops_kind : exists k, old_egmap_ctor_kind k true <> k /\ old_egmap_ctor_kind k true = zs "linear".
 Proof. exists (zs "nearest"). split; [vm_compute; discriminate | reflexivity]. Qed.
-(** guard: no spline is built, or the kind / fill value are the defaults of build_spline *)
-Lemma egm_ctor_partial k a : a = false \/ k = zs k_egmap_build_default_kind -> ctor_kind true k a = k.
-Proof. intros [->| ->]; [reflexivity|]. unfold ctor_kind, ctor_setting. destruct a; destruct k_egmap_ctor_passes_kind; reflexivity. Qed.
 
 (** ** default arguments on both sides *)
 Definition w_map : gmap := mkG [1; 1; 1] [10; 20; 30] None [0%float; 0.5%float; 1%float] None None.
@@ -30,31 +32,54 @@ Proof. do 4 eexists. split; [reflexivity|]. split; [reflexivity|]. split; [vm_co
 
 (** ** egmap files *)
 Definition w_eg : gmap := mkG [1; 1] [10; 20] (Some [11; 21]) [0%float; 0.5%float] (Some [[97]; [98]]) (Some [[72]; [72]]).
-Lemma egmap_names_lost :
-  exists g', egmap_from false (egmap_to w_eg) = Some (g', None)
+(** the former pair lost names and function codes ... *)
+Lemma old_egmap_names_lost :
+  exists g', old_egmap_from false (old_egmap_to w_eg) = Some (g', None)
              /\ g_name w_eg = Some [[97]; [98]] /\ g_name g' = None /\ g_fn g' = None
              /\ g_chr g' = g_chr w_eg /\ g_pos g' = g_pos w_eg /\ g_stop g' = g_stop w_eg /\ fl_eqb (g_gen g') (g_gen w_eg) = true.
 Proof. eexists. split; [vm_compute; reflexivity|]. repeat split; vm_compute; reflexivity. Qed.
-(** the header the writer produces does not carry the names the reader looks for *)
-Lemma egmap_header_mismatch :
-  forallb (fun nm => negb (existsb (String.eqb nm) k_egmap_file_header)) k_egmap_file_optional = true.
+(** ... because the header the former writer produced did not carry the names the reader looks for; the current one does, at the
+    positions the reader takes them from *)
+Lemma old_egmap_header_mismatch :
+  forallb (fun nm => negb (existsb (cell_eqb (CS (zs nm))) old_egmap_header)) k_egmap_file_optional = true.
 Proof. vm_compute. reflexivity. Qed.
-(** guard: a map without marker names and function codes survives the file pair (any sizes, any positions) *)
-Lemma nth_error_combine_hd {A B} (a : A) (b : B) la lb : nth_error (combine (a :: la) (b :: lb)) 0 = Some (a, b).
-Proof. reflexivity. Qed.
-Theorem egmap_roundtrip_partial (g : gmap) (auto_group : bool) s : g_stop g = Some s -> g_name g = None -> g_fn g = None ->
+Lemma egmap_header_match :
+  nth_error k_egmap_file_header 4 = nth_error k_egmap_file_optional 0 /\ nth_error k_egmap_file_header 5 = nth_error k_egmap_file_optional 1
+  /\ length k_egmap_file_header = 6%nat /\ length k_egmap_file_optional = 2%nat.
+Proof. repeat split; reflexivity. Qed.
+(** df[name].notna().any() on a column the writer filled from an optional array: true exactly for a present, non-empty array *)
+Lemma has_value_opt_strs n (o : option (list str)) :
+  existsb (fun x => negb (is_na x)) (opt_strs_col n o) = match o with Some (_ :: _) => true | _ => false end.
+Proof.
+  destruct o as [[|x l]|]; cbn; try reflexivity.
+  induction n as [|n IH]; cbn; [reflexivity | exact IH].
+Qed.
+(** the file pair reproduces every extended map (any sizes, positions, names, codes), marker names and function codes included;
+    the one thing the format cannot tell apart is an absent array from an array of length zero (both are an empty column) *)
+Theorem egmap_roundtrip (g : gmap) (auto_group : bool) s : g_stop g = Some s -> g_name g <> Some [] -> g_fn g <> Some [] ->
   egmap_from auto_group (egmap_to g) = Some (gmap_construct auto_group g).
 Proof.
-  intros E1 E2 E3. destruct g as [c p st ge nm fn]. cbn [g_stop g_name g_fn] in E1, E2, E3. subst.
-  unfold egmap_to, egmap_header, gmap_to_pandas. cbn [g_chr g_pos g_gen g_stop g_name g_fn app map snd].
+  intros E1 N1 N2. destruct g as [c p st ge nm fn]. cbn [g_stop g_name g_fn] in E1, N1, N2. subst.
+  unfold egmap_to, egmap_to_with, egmap_header, gmap_to_pandas. cbn [g_chr g_pos g_gen g_stop g_name g_fn app map snd].
   change (map (fun s0 => CS (zs s0)) k_egmap_file_header)
-    with [CS (zs "chr"); CS (zs "pos"); CS (zs "stop"); CS (zs "M"); CS (zs "name"); CS (zs "fncode")].
-  cbn [combine]. unfold egmap_from. cbn [nth_error fst snd].
+    with [CS (zs "chr"); CS (zs "pos"); CS (zs "stop"); CS (zs "M"); CS (zs "mkr_name"); CS (zs "map_fncode")].
+  cbn [combine]. unfold egmap_from, egmap_from_with. cbn [nth_error fst snd].
   rewrite !(opt_all_map_some as_int CI) by reflexivity. rewrite (opt_all_map_some as_float CF) by reflexivity.
-  replace (has_col (nth 0 k_egmap_file_optional ""%string) _) with false by (vm_compute; reflexivity).
-  replace (has_col (nth 1 k_egmap_file_optional ""%string) _) with false by (vm_compute; reflexivity).
-  reflexivity.
+  set (t := [(CS (zs "chr"), map CI c); _; _; _; _; _]).
+  replace (has_col (nth 0 k_egmap_file_optional ""%string) t) with true by (vm_compute; reflexivity).
+  replace (has_col (nth 1 k_egmap_file_optional ""%string) t) with true by (vm_compute; reflexivity).
+  replace (col_has_value (nth 0 k_egmap_file_optional ""%string) t) with (existsb (fun x => negb (is_na x)) (opt_strs_col (length c) nm))
+    by (vm_compute; reflexivity).
+  replace (col_has_value (nth 1 k_egmap_file_optional ""%string) t) with (existsb (fun x => negb (is_na x)) (opt_strs_col (length c) fn))
+    by (vm_compute; reflexivity).
+  rewrite !has_value_opt_strs. unfold k_egmap_optional_read. cbn [andb].
+  destruct nm as [[|n0 nm]|]; [congruence | |]; destruct fn as [[|f0 fn]|]; try congruence; cbn [opt_strs_col];
+    rewrite ?(opt_all_map_some as_str CS) by reflexivity; reflexivity.
 Qed.
+(** the formerly proved special case: a map without marker names and function codes *)
+Corollary egmap_roundtrip_no_names (g : gmap) (auto_group : bool) s : g_stop g = Some s -> g_name g = None -> g_fn g = None ->
+  egmap_from auto_group (egmap_to g) = Some (gmap_construct auto_group g).
+Proof. intros E1 E2 E3. apply (egmap_roundtrip g auto_group s E1); [rewrite E2 | rewrite E3]; discriminate. Qed.
 
 (** ** column selection (finite table regenerated from the source) *)
 Lemma col_select_ok : forallb col_row_ok k_col_select = true /\ (16 <= length k_col_select)%nat.
